@@ -438,8 +438,9 @@ struct Batch {
   bool time_capped = false;
 };
 
-static Batch run_batch(Property &P, uint64_t base_seed, long runs, double secs, int jobs, bool thorough) {
+static Batch run_batch(Property &P, uint64_t base_seed, long runs, double secs, int jobs, bool thorough, std::vector<Known> *known) {
   Batch B;
+  long unknown_violations = 0;
   std::vector<Worker> ws((size_t)jobs);
   for (int i = 0; i < jobs; i++) { ws[(size_t)i].idx = i; spawn_worker(P, ws[(size_t)i], thorough); }
   long next = 0;
@@ -447,7 +448,7 @@ static Batch run_batch(Property &P, uint64_t base_seed, long runs, double secs, 
   auto feed = [&](Worker &w) {
     if (next >= runs) return;
     if (now_s() - t0 > secs) { B.time_capped = true; return; }
-    if (B.violations.size() + B.crashed_seeds.size() >= 200) return;   // enough to report
+    if (unknown_violations + (long)B.crashed_seeds.size() >= 200 || B.violations.size() >= 20000) return;   // enough to report
     uint64_t seed = mix64(base_seed, (uint64_t)next) >> 1;
     next++;
     std::string s = std::to_string(seed) + "\n";
@@ -488,7 +489,7 @@ static Batch run_batch(Property &P, uint64_t base_seed, long runs, double secs, 
                 if (B.sample_seed[0] == 0) B.sample_seed[0] = seed;
                 else if (B.sample_seed[1] == 0 && r.nontrivial) B.sample_seed[1] = seed;
                 if (nf > B.best_faults) { B.best_faults = nf; B.sample_seed[2] = seed; }
-                if (r.violation) B.violations.emplace_back(seed, r);
+                if (r.violation) { B.violations.emplace_back(seed, r); if (!known || !match_known(*known, r)) unknown_violations++; }
               }
               w.busy = false; w.done++;
               // recycle workers periodically (abandoned module instances are leaked on purpose)
@@ -606,7 +607,7 @@ static int cmd_check(Property &P, bool thorough, int jobs, long runs_override, d
     }
   }
 
-  Batch B = run_batch(P, base_seed, runs, secs, jobs, thorough);
+  Batch B = run_batch(P, base_seed, runs, secs, jobs, thorough, &known);
 
   {
     std::map<std::string, int> by_class;
